@@ -8,6 +8,7 @@ mod geomgen;
 mod opt;
 mod optgen;
 mod parse;
+mod pipe;
 
 use std::io::{BufRead, Write};
 
@@ -25,6 +26,14 @@ fn main() {
     match cmd {
         "dump" => {
             println!("{}", serde_json::to_string_pretty(&dump::dump()).unwrap());
+        }
+        "pipeline" => {
+            let mut o = std::io::stdout();
+            pipe::pipeline(&args, &mut o);
+        }
+        "state-info" => {
+            let mut o = std::io::stdout();
+            pipe::state_info(&args, &mut o);
         }
         "parse-run" => {
             parse::run(arg(&args, "--cases").expect("--cases"), arg(&args, "--out").expect("--out"));
